@@ -273,7 +273,7 @@ class DistinctCountCheck(AbstractCheck):
             raise errors.InterfaceError(
                 "cannot evaluate count expression %r: %s" % (self._expression, message), self.location_of_rule
             )
-        if result not in (True, False):
+        if not isinstance(result, bool):
             raise errors.InterfaceError(
                 "count expression %r must result in %r or %r, but test resulted in: %r"
                 % (self._expression, True, False, result),
